@@ -25,7 +25,7 @@ structure GNFA (σ ℓ : Type) where
   trans : List (σ × List (σ × Option ℓ))
   init : σ
   final : σ
-  deriving Repr
+  deriving Repr, DecidableEq
 
 /-! ### `re._validate` for the label syntax -/
 
